@@ -300,6 +300,45 @@ def r153(ctx):
     # when the channel is found (stub or ready) the mark is raised unless already >= oid: the write dominates removal of a stub
     # who may write the mark at all
     R.who_may_write(ctx, "R15.3", "NodeState", "dbid_high_water_mark", {f"{NODE}::forget_channel": "raised on forget"}, floor=1)
+    # the mark survives a restart: stored entry <- live field, restore argument <- stored entry, restored slot <- argument
+    rst = p.fn(LS + "node::NodeState::restore")
+    pnames = [rst.local_name(i + 1) for i in range(rst.argc)]
+    if "dbid_high_water_mark" not in pnames:
+        raise R.Broken("anchor missing: parameter dbid_high_water_mark of NodeState::restore")
+    ng = 0
+    for g in [b for b in p.bodies.values() if b.d.krate == "vls_persist" and b.name.endswith("::get_nodes") and "KVVPersister" in b.name]:
+        gv = fnview(ctx, g)
+        for bi, ln, c in R.call_blocks(gv, lambda n: n == LS + "node::NodeState::restore"):
+            ng += 1
+            e = gv.expr(c.args[pnames.index("dbid_high_water_mark")])
+            ok = any(x[0] == "field" and x[3] == "dbid_high_water_mark" for x in subexprs(e))
+            ctx.ob("R15.3", ok, f"{g.name}/restore-arg/dbid_high_water_mark",
+                   f"get_nodes passes `{render(e)[:100]}` as NodeState::restore's dbid_high_water_mark: after a restart the mark is lost "
+                   f"and a forgotten id can be created again", where=f"{g.file}:{ln}", sample="dbid_high_water_mark <- state_entry.dbid_high_water_mark")
+            for i, pn in enumerate(pnames):
+                if pn != "dbid_high_water_mark":
+                    e2 = gv.expr(c.args[i])
+                    leak = any(x[0] == "field" and x[3] == "dbid_high_water_mark" for x in subexprs(e2))
+                    ctx.ob("R15.3", not leak, f"{g.name}/restore-arg/{pn}/not-the-mark", f"the stored mark is passed as NodeState::restore's {pn}",
+                           where=f"{g.file}:{ln}")
+    ctx.floor("R15.3", "NodeState::restore calls in KVVPersister::get_nodes", ng, 1)
+    rv = fnview(ctx, rst)
+    for bb, bi, si, st in R.constructions(p, LS + "node::NodeState"):
+        if bb is rst:
+            vals = dict(zip(st.rv.a[3], st.rv.ops))
+            e = rv.expr(vals["dbid_high_water_mark"])
+            ctx.ob("R15.3", R.mentions_param(e, "dbid_high_water_mark"), f"{rst.name}/slot/dbid_high_water_mark",
+                   f"NodeState::restore fills the mark from `{render(e)[:80]}`", where=f"{rst.file}:{st.line}", sample="mark <- parameter")
+    for bb, bi, si, st in R.constructions(p, "vls_persist::model::NodeStateEntry"):
+        vals = dict(zip(st.rv.a[3], st.rv.ops))
+        if (bb.mac and "derive" in bb.mac) or "_serde" in bb.name or R.is_test_util(R.owner_name(p, bb)):
+            continue    # serde's Deserialize visitor builds the entry from the wire
+        if "dbid_high_water_mark" in vals:
+            ev = fnview(ctx, bb)
+            e = ev.expr(vals["dbid_high_water_mark"])
+            ctx.ob("R15.3", any(x[0] == "field" and x[3] == "dbid_high_water_mark" and x[2].endswith("NodeState") for x in subexprs(e)),
+                   f"{R.owner_name(p, bb)}/stores-mark", f"the stored entry's mark is `{render(e)[:80]}`", where=f"{bb.file}:{st.line}",
+                   sample="entry.mark <- state.dbid_high_water_mark")
     # find_or_create_channel is reachable only from new_channel* (the checked entry) and test helpers
     R.who_may_call(ctx, "R15.3", lambda n: n == f"{NODE}::find_or_create_channel",
                    {f"{NODE}::new_channel": "checked against the high-water mark",
